@@ -261,6 +261,14 @@ func first(a, _ []byte) []byte { return a }
 //@ spec InvRef(r) = ite(r.tag == 0, Inv4(as(node4, r.pointer)), ite(r.tag == 1, Inv16(as(node16, r.pointer)), ite(r.tag == 2, Inv48(as(node48, r.pointer)), r.tag == 3 && Inv256(as(node256, r.pointer)))))
 //@ spec typeOK(r) = r.pointer != nil && atype(r.pointer) == ite(r.tag == 0, typeid(node4), ite(r.tag == 1, typeid(node16), ite(r.tag == 2, typeid(node48), typeid(node256))))
 
+// Minimal fan-out per class. These numbers are the representation invariant that the
+// implementation's shrink thresholds (3/12/37, merge at 1) maintain: a node16 never has
+// fewer than 4 children, a node48 never fewer than 13, a node256 never fewer than 38.
+// They are kept out of the class invariants (C10 does not depend on the hysteresis);
+// the tree invariant needs them to be inductive ("every branch point has >= 2 children").
+//@ spec fanOf(r) = ite(r.tag == 3, cntP(as(node256, r.pointer).children, 256), as(node, r.pointer).childrenLen)
+//@ spec fanMin(r) = fanOf(r) >= ite(r.tag == 0, 2, ite(r.tag == 1, 4, ite(r.tag == 2, 13, 38)))
+//@ spec ZeroRef(p, k) = ite(k == 0, Zero4(as(node4, p)), ite(k == 1, Zero16(as(node16, p)), ite(k == 2, Zero48(as(node48, p)), Zero256(as(node256, p)))))
 //@ spec ZeroHdr(n) = n.prefixLen == 0 && n.childrenLen == 0 && forall(i, 0, 10, n.prefix[i] == 0)
 //@ spec Zero4(n) = ZeroHdr(n) && n.keys == 0 && forall(i, 0, 4, n.children[i].pointer == nil && n.children[i].tag == 0)
 //@ spec Zero16(n) = ZeroHdr(n) && forall(i, 0, 16, n.keys[i] == 0 && n.children[i].pointer == nil && n.children[i].tag == 0)
@@ -313,6 +321,7 @@ func first(a, _ []byte) []byte { return a }
 //@   ensures[view] forallp(x, 0, 256, lookP256(n256, x) == ite(x == b, child.pointer, old(lookP256(n256, x))) && lookT256(n256, x) == ite(x == b, child.tag, old(lookT256(n256, x))))
 //@   ensures[inv] Inv256(n256)
 //@   ensures[hdr] hdrSame(n256, n256)
+//@   ensures[fan] cntP(n256.children, 256) == old(cntP(n256.children, 256)) + 1
 //@   ensures[frame] frame(n256)
 //@   assigns SP ST node.childrenLen
 
@@ -322,6 +331,7 @@ func first(a, _ []byte) []byte { return a }
 //@   ensures[view] forallp(x, 0, 256, lookP(*ref, x) == ite(x == b, child.pointer, old(lookP48(n48, x))) && lookT(*ref, x) == ite(x == b, child.tag, old(lookT48(n48, x))))
 //@   ensures[inv] typeOK(*ref) && okRef(*ref) && InvRef(*ref)
 //@   ensures[hdr] hdrSame((*ref).pointer, n48)
+//@   ensures[fan] fanOf(*ref) == old(n48.childrenLen) + 1 && implies(old(fanMin(*ref)), fanMin(*ref))
 //@   ensures[replaced] (*ref).pointer == n48 || (fresh((*ref).pointer) && Zero48(n48))
 //@   ensures[frame] frame(n48, ref.obj, (*ref).pointer) && frameSlot(ref)
 //@   loop 1 (pos)
@@ -341,6 +351,7 @@ func first(a, _ []byte) []byte { return a }
 //@   ensures[view] forallp(x, 0, 256, lookP(*ref, x) == ite(x == b, child.pointer, old(lookP16(n16, x))) && lookT(*ref, x) == ite(x == b, child.tag, old(lookT16(n16, x))))
 //@   ensures[inv] typeOK(*ref) && okRef(*ref) && InvRef(*ref)
 //@   ensures[hdr] hdrSame((*ref).pointer, n16)
+//@   ensures[fan] fanOf(*ref) == old(n16.childrenLen) + 1 && implies(old(fanMin(*ref)), fanMin(*ref))
 //@   ensures[replaced] (*ref).pointer == n16 || (fresh((*ref).pointer) && Zero16(n16))
 //@   ensures[frame] frame(n16, ref.obj, (*ref).pointer) && frameSlot(ref)
 //@   loop 1 (i)
@@ -357,6 +368,7 @@ func first(a, _ []byte) []byte { return a }
 //@   ensures[view] forallp(x, 0, 256, lookP(*ref, x) == ite(x == b, child.pointer, old(lookP4(n4, x))) && lookT(*ref, x) == ite(x == b, child.tag, old(lookT4(n4, x))))
 //@   ensures[inv] typeOK(*ref) && okRef(*ref) && InvRef(*ref)
 //@   ensures[hdr] hdrSame((*ref).pointer, n4)
+//@   ensures[fan] fanOf(*ref) == old(n4.childrenLen) + 1 && implies(old(fanMin(*ref)), fanMin(*ref))
 //@   ensures[replaced] (*ref).pointer == n4 || (fresh((*ref).pointer) && Zero4(n4))
 //@   ensures[frame] frame(n4, ref.obj, (*ref).pointer) && frameSlot(ref)
 
@@ -368,6 +380,8 @@ func first(a, _ []byte) []byte { return a }
 //@   ensures[view] forallp(x, 0, 256, lookP(*ptr, x) == ite(x == b, child.pointer, old(lookP(*ptr, x))) && lookT(*ptr, x) == ite(x == b, child.tag, old(lookT(*ptr, x))))
 //@   ensures[inv] typeOK(*ptr) && okRef(*ptr) && InvRef(*ptr)
 //@   ensures[hdr] hdrSame((*ptr).pointer, old((*ptr).pointer))
+//@   ensures[fan] fanOf(*ptr) == old(fanOf(*ptr)) + 1 && implies(old(fanMin(*ptr)), fanMin(*ptr))
+//@   ensures[zeroed] implies((*ptr).pointer != old((*ptr).pointer), ZeroRef(old((*ptr).pointer), old((*ptr).tag)))
 //@   ensures[replaced] (*ptr).pointer == old((*ptr).pointer) || fresh((*ptr).pointer)
 //@   ensures[frame] frame(old((*ptr).pointer), ptr.obj, (*ptr).pointer) && frameSlot(ptr)
 
@@ -381,6 +395,7 @@ func first(a, _ []byte) []byte { return a }
 //@   ensures[view] forallp(x, 0, 256, lookP(*ref, x) == ite(x == b, nil, old(lookP256(n256, x))) && lookT(*ref, x) == ite(x == b, 0, old(lookT256(n256, x))))
 //@   ensures[inv] typeOK(*ref) && okRef(*ref) && InvRef(*ref)
 //@   ensures[hdr] hdrSame((*ref).pointer, n256)
+//@   ensures[fan] fanOf(*ref) == old(fanOf(*ref)) - 1 && implies(old(fanMin(*ref)), fanMin(*ref))
 //@   ensures[replaced] (*ref).pointer == n256 || (fresh((*ref).pointer) && Zero256(n256))
 //@   ensures[frame] frame(n256, ref.obj, (*ref).pointer) && frameSlot(ref)
 //@   loop 1 (i)
@@ -405,6 +420,7 @@ func first(a, _ []byte) []byte { return a }
 //@   ensures[view] forallp(x, 0, 256, lookP(*ref, x) == ite(x == b, nil, old(lookP48(n48, x))) && lookT(*ref, x) == ite(x == b, 0, old(lookT48(n48, x))))
 //@   ensures[inv] typeOK(*ref) && okRef(*ref) && InvRef(*ref)
 //@   ensures[hdr] hdrSame((*ref).pointer, n48)
+//@   ensures[fan] fanOf(*ref) == old(fanOf(*ref)) - 1 && implies(old(fanMin(*ref)), fanMin(*ref))
 //@   ensures[replaced] (*ref).pointer == n48 || (fresh((*ref).pointer) && Zero48(n48))
 //@   ensures[frame] frame(n48, ref.obj, (*ref).pointer) && frameSlot(ref)
 //@   loop 1 (i)
@@ -428,6 +444,7 @@ func first(a, _ []byte) []byte { return a }
 //@   ensures[view] forallp(x, 0, 256, lookP(*ref, x) == ite(x == b, nil, old(lookP16(n16, x))) && lookT(*ref, x) == ite(x == b, 0, old(lookT16(n16, x))))
 //@   ensures[inv] typeOK(*ref) && okRef(*ref) && InvRef(*ref)
 //@   ensures[hdr] hdrSame((*ref).pointer, n16)
+//@   ensures[fan] fanOf(*ref) == old(fanOf(*ref)) - 1 && implies(old(fanMin(*ref)), fanMin(*ref))
 //@   ensures[replaced] (*ref).pointer == n16 || (fresh((*ref).pointer) && Zero16(n16))
 //@   ensures[frame] frame(n16, ref.obj, (*ref).pointer) && frameSlot(ref)
 
@@ -452,6 +469,7 @@ func first(a, _ []byte) []byte { return a }
 //@   ensures[view] implies(old(n4.childrenLen) > 2, forallp(x, 0, 256, lookP(*ref, x) == ite(x == b, nil, old(lookP4(n4, x))) && lookT(*ref, x) == ite(x == b, 0, old(lookT4(n4, x)))))
 //@   ensures[inv] implies(old(n4.childrenLen) > 2, (*ref).pointer == n4 && (*ref).tag == 0 && Inv4(n4) && n4.childrenLen >= 2)
 //@   ensures[hdr] implies(old(n4.childrenLen) > 2, hdrSame(n4, n4))
+//@   ensures[fan] implies(old(n4.childrenLen) > 2, n4.childrenLen == old(n4.childrenLen) - 1)
 //@   ensures[merge_link] implies(old(n4.childrenLen) == 2, (*ref).pointer == sP && (*ref).tag == sT && Zero4(n4))
 //@   ensures[merge_len] implies(old(n4.childrenLen) == 2 && sT != 4, as(node, sP).prefixLen == P + 1 + L)
 //@   ensures[merge_path] implies(old(n4.childrenLen) == 2 && sT != 4, forall(k, 0, 10, implies(k < P + 1 + L, as(node, sP).prefix[k] == ite(k < P, old(n4.prefix[k]), ite(k == P, sB, old(as(node, sP).prefix[k - P - 1]))))))
@@ -474,6 +492,8 @@ func first(a, _ []byte) []byte { return a }
 //@   ensures[view] implies(!merge, forallp(x, 0, 256, lookP(*ptr, x) == ite(x == b, nil, old(lookP(*ptr, x))) && lookT(*ptr, x) == ite(x == b, 0, old(lookT(*ptr, x)))))
 //@   ensures[inv] implies(!merge, typeOK(*ptr) && okRef(*ptr) && InvRef(*ptr))
 //@   ensures[hdr] implies(!merge, hdrSame((*ptr).pointer, n0))
+//@   ensures[fan] implies(!merge, fanOf(*ptr) == old(fanOf(*ptr)) - 1 && implies(old(fanMin(*ptr)), fanMin(*ptr)))
+//@   ensures[zeroed] implies((*ptr).pointer != n0, ZeroRef(n0, old((*ptr).tag)))
 //@   ensures[replaced] implies(!merge, (*ptr).pointer == n0 || fresh((*ptr).pointer))
 //@   ensures[merge_link] implies(merge, (*ptr).pointer == sP && (*ptr).tag == sT)
 //@   ensures[frame] implies(!merge || sT == 4, frame(n0, ptr.obj, (*ptr).pointer)) && implies(merge && sT != 4, frame(n0, ptr.obj, sP)) && frameSlot(ptr)
@@ -504,8 +524,7 @@ func first(a, _ []byte) []byte { return a }
 //@     invariant depth <= idx && forall(i, depth, idx, key[i] == other[i]) && implies(depth <= maxCmp, idx <= maxCmp) && implies(depth > maxCmp, idx == depth)
 //@     decreases maxCmp - idx
 
-//@ spec fanOK(k) = k >= 2 || k == 0
-//@ spec NodeOK(o) = implies(atype(o) == typeid(node4), Inv4(as(node4, o)) && fanOK(as(node4, o).childrenLen)) && implies(atype(o) == typeid(node16), Inv16(as(node16, o)) && fanOK(as(node16, o).childrenLen)) && implies(atype(o) == typeid(node48), Inv48(as(node48, o)) && fanOK(as(node48, o).childrenLen)) && implies(atype(o) == typeid(node256), Inv256(as(node256, o)) && fanOK(cntP(as(node256, o).children, 256)))
+//@ spec NodeOK(o) = implies(atype(o) == typeid(node4), Inv4(as(node4, o)) && (as(node4, o).childrenLen >= 2 || Zero4(as(node4, o)))) && implies(atype(o) == typeid(node16), Inv16(as(node16, o)) && (as(node16, o).childrenLen >= 4 || Zero16(as(node16, o)))) && implies(atype(o) == typeid(node48), Inv48(as(node48, o)) && (as(node48, o).childrenLen >= 13 || Zero48(as(node48, o)))) && implies(atype(o) == typeid(node256), Inv256(as(node256, o)) && (cntP(as(node256, o).children, 256) >= 38 || Zero256(as(node256, o))))
 //@ spec rootOK(r) = r.pointer == nil || okRef(r)
 
 //@ spec LeafOK_alpha(o) = as(alphaLeafNode, o).key.obj != nil && allocated(as(alphaLeafNode, o).key.obj) && 0 <= as(alphaLeafNode, o).key.idx && as(alphaLeafNode, o).key.idx + as(alphaLeafNode, o).len <= blen(as(alphaLeafNode, o).key.obj)
@@ -555,4 +574,5 @@ func first(a, _ []byte) []byte { return a }
 //@     invariant n.pointer == (*ref).pointer && n.tag == (*ref).tag
 //@     invariant n.pointer == nil || okRef(n)
 //@     invariant slotOf(ref, t) && ref.obj != n.pointer
+//@     invariant n.tag != 4 || ref.obj == t
 //@     decreases len(keyS) - depth
